@@ -210,6 +210,15 @@ theorem lts_no_dispatch_after_final_failure (c : SCfg) (hff : c.failFast = true)
   have ha := SchedTrip.ainv_after_final_end c pre id t hc1 hsel
   exact (SchedTrip.ainv_run c hff _ _ ha hc).2 n sl (by simp)
 
+/-- **Tripped is absorbing over whole runs**: once the slot counter is `Break` (after the loop has started), it is `Break`
+    after every continuation replayed without a disagreement — so `features.get` is asked for `Some(0)` for the rest of
+    the run and `lts_no_dispatch_while_tripped` applies to every later dispatch. -/
+theorem lts_tripped_stays_tripped (c : SCfg) (pre post : List Label) (hc : SchedOrd.Clean0 (accept c (pre ++ post)) = true)
+    (hp : (accept c pre).phase ≠ .init) (hb : (accept c pre).slots = .brk) : (accept c (pre ++ post)).slots = .brk := by
+  have hsplit : accept c (pre ++ post) = post.foldl (stepL c) (accept c pre) := by simp [accept, List.foldl_append]
+  rw [hsplit] at hc ⊢
+  exact (SchedTrip.tripped_run c post _ ⟨hp, hb⟩ hc).2
+
 /-- the monitor's predicate is the theorem's hypothesis: where `endsWhileSelecting` holds, every `END` was taken in
     phase `selecting` -/
 theorem endsWhileSelecting_spec (c : SCfg) (pre post : List Label) (id t : Nat) (f r : Bool)
